@@ -39,6 +39,10 @@ func c13Build(c *engine.C, n int, pkgFull bool) c13Model {
 		p := c13Pkgs[(c.Choose(len(c13Pkgs), fmt.Sprintf("pkg%d", i))+def)%len(c13Pkgs)]
 		m.types = append(m.types, c13Type{p, names[i]})
 	}
+	if pkgFull && n >= 2 && c.Bool("t1-shares-its-simple-name-with-t0") && m.types[1].Pkg != m.types[0].Pkg {
+		m.types[1].Name = m.types[0].Name
+		c.Tag("same-simple-name-in-two-packages")
+	}
 	hasMain := pkgFull && c.Bool("main-type")
 	if hasMain {
 		m.types = append(m.types, c13Type{m.types[0].Pkg, "Main"})
@@ -376,6 +380,7 @@ func init() {
 			{Name: "two-types-full", KQuick: -1, KThor: -1, Gen: c13Gen(2, false)},
 			{Name: "three-types", KQuick: 3, KThor: 4, Gen: c13Gen(3, true)},
 			{Name: "four-types", KQuick: 2, KThor: 3, Gen: c13Gen(4, true)},
+			{Name: "through-coca-arch", KQuick: 1, KThor: 2, Gen: cliArchGen},
 		},
 	})
 }
